@@ -121,14 +121,18 @@ func instrumentFile(pkgs []*packages.Package, rel string) ([]byte, error) {
 		return true
 	})
 	f := out.(*ast.File)
+	if n == 0 {
+		var buf bytes.Buffer
+		if err := format.Node(&buf, pkg.Fset, f); err != nil {
+			return nil, err
+		}
+		return buf.Bytes(), nil
+	}
 	astutil.AddNamedImport(pkg.Fset, f, "verifsym", nokv+"/internal/verifsym")
 	var buf bytes.Buffer
 	// the file must carry no //go:build line that excludes it; keep as is
 	if err := format.Node(&buf, pkg.Fset, f); err != nil {
 		return nil, err
-	}
-	if n == 0 {
-		return nil, fmt.Errorf("instrument: no visible operation found in %s", rel)
 	}
 	return buf.Bytes(), nil
 }
